@@ -142,7 +142,10 @@ impl Engine for QuantEngine {
         match ev {
             Ev::Convert(bits) => {
                 let v = f32::from_bits(*bits);
-                let v64 = v as f64;
+                // "the input" of C09/C19 is the input after the documented clamp to [0, 10] V (C08 says so explicitly;
+                // with the raw input the statement's window rule and its monotonicity consequence contradict each
+                // other for inputs above 10 V, see DESIGN.md section 7)
+                let v64 = if v.is_nan() { f64::NAN } else { (v as f64).max(0.0).min(10.0) };
                 ctx.steps += 1;
                 ctx.sim_ns += 1_000_000; // control-rate conversion, 1 kHz
                 let c = real!(ex.q.convert(v));
@@ -204,7 +207,7 @@ impl Engine for QuantEngine {
                         kept_by_window = true;
                         ctx.check(9, "hysteresis_holds_note", note == p, || {
                             format!(
-                                "previous note {} is allowed and input {:e} lies inside its widened bucket ({:.6}, {:.6}) but the note changed to {}",
+                                "previous note {} is allowed and input {:e} (clamped to [0,10]) lies inside its widened bucket ({:.6}, {:.6}) but the note changed to {}",
                                 p,
                                 v,
                                 p as f64 * SEMI - HYST,
